@@ -131,7 +131,7 @@ def build_cases(ctx):
             for sn, calls in (sp if (thorough and not big) else sp[:1] + (sp[1:2] if k == 0 and not big else [])):
                 cases.append(Case("fixture:%s/%d/%s" % (b, SETTINGS6.index(st), sn), calls, st))
     # type-directed generated schemas over ALL feature sets (hostile names included)
-    per = 40 if thorough else 5
+    per = 40 if thorough else 9
     for fs in sorted(gen.FEATURE_SETS):
         feats = gen.FEATURE_SETS[fs]
         for i in range(per):
@@ -144,6 +144,18 @@ def build_cases(ctx):
             sp = splits(doc)
             sn, calls = sp[i % len(sp)] if i % 3 == 2 else sp[0]
             cases.append(Case("gen:%s:%d/%s" % (fs, i, sn), calls, st, supported=sup))
+    # recursive documents over every containment edge kind (C07's schema generator), and the shared corpus of awkward documents
+    try:
+        from props import c07
+        for k in range(150 if thorough else 24):
+            d = c07.gen_schema(rng)["schema"]
+            if "$ref\": \"#/definitions/" in json.dumps(d) and not d.get("definitions"): continue    # dangling references
+            cases.append(Case("cyc:%d" % k, [{"root": d}], SETTINGS6[k % 6] if k % 3 == 0 else {}, supported=False))
+    except Exception as e:
+        ctx.notes.append("c07.gen_schema unavailable: %r" % (e,))
+    import corpus
+    for cid, cdoc, cst in corpus.documents():
+        if cid.startswith("hand:"): cases.append(Case("corpus:" + cid, [{"root": cdoc}], cst, supported=False))
     # settings drawn from the document (patch / replace / convert): c14's plans, compilable ones only
     try:
         from props import c14
@@ -332,6 +344,7 @@ def attribute(c, findings):
                 else: return None
         elif n == "no_prelude_shadow": use("C01-prelude-shadow", ["E0308", "E0107", "E0599"], ["E0423", "E0574", "E0532", "E0533", "E0618", "E0061", "E0277", "E0119", "E0412", "E0404", "None"])
         elif n == "default_fns_unique": use("C01-default-fn-clash", ["E0428"])
+        elif n == "deref_finite": use("C01-alias-cycle-deref", ["E0055"])
         elif n == "defaults_typed": use("C06-nested-default", ["E0277", "E0308"], ["E0063", "E0560", "E0599", "None"])
         elif n == "serde_legal":
             rm = c.b.render_message or ""
